@@ -7,10 +7,16 @@
       prints for those locations,
     * a harness event around the API (`submit id`, `accept id`, `run id`, `done id`, `stop_begin` …),
     * thread exit / join,
-    * or one of three *hidden* steps that have no line in the trace because they happen on slot
+    * or one of two *hidden* steps that have no line in the trace because they happen on slot
       words this model does not look at: `publish` (a push makes its value visible: the
-      `set_version` at the end of `deal<…,PUSH>`), `receive` (a blocking pop obtains the value of
-      its ticket) and `release` (the balance thread's pop callback returns and frees the slot).
+      `set_version` at the end of `deal<…,PUSH>`) and `receive` (a blocking pop obtains the value of
+      its ticket and frees the slot).
+  A successful `try_pop` is one step (the CAS on the pop index): its callback only moves the task out
+  and the slot is released before the caller does anything else.  This holds for the worker, for a
+  stealing worker and — since the repair recorded as `fixed: property=C07 4e1dfd6` — for the balance
+  thread, which now pops into a local `Task` and forwards it afterwards (before, it forwarded from
+  inside the callback and kept the slot occupied while blocked on the global queue; the generated
+  obligation `gen_balance_forwards_after_pop` pins the repaired shape).
 
   Everything below the tickets is the bounded queue's own business (property C01/C02).  What this
   model ASSUMES of `ConcurrentBoundedQueue`, per queue with `slots = bit_ceil(min_capacity)` cells:
@@ -53,10 +59,9 @@ inductive Item
 
 /-- life cycle of the cell of push ticket `i`:
 `reserved` ticket taken, value not yet published; `full` published, not claimed;
-`taken` claimed by a pop whose callback has not returned (only the balance thread stays here for
-more than an instant: its callback pushes into the global queue); `free` slot released. -/
+`free` claimed, value moved out, slot released. -/
 inductive CellSt
-  | reserved | full | taken | free
+  | reserved | full | free
   deriving DecidableEq, Repr, Inhabited
 
 structure Cell where
@@ -117,8 +122,18 @@ structure Cfg where
 def Cfg.lslots (c : Cfg) : Nat := bitCeil (Babylon.Gen.Exec.localFactor * c.L)
 def Cfg.gslots (c : Cfg) : Nat := bitCeil (Babylon.Gen.Exec.globalFactor * c.G)
 
+/-- which `try_pop` a thread is inside: its own local queue (`keep_execute`), slot `k` of the stealing
+scan, or slot `k` of the balance thread's sweep -/
+inductive PopCtx
+  | own
+  | steal (k : Nat)
+  | bal (k : Nat)
+  deriving DecidableEq, Repr, Inhabited
+
 /-- program counters.  `gTake x k` / `gPub p k` is the generic blocking push of `x` into the global
-queue (`_global_task_queue.push<true,false,true>`) followed by the continuation `k`. -/
+queue (`_global_task_queue.push<true,false,true>`) followed by the continuation `k`;
+`chk ctx i nr` is the body of `try_pop<true,false>` after the pop index `i` has been loaded
+(`nr`: ticket `i` was not ready at that moment, assumption Q4). -/
 inductive Pc
   | idle                                   -- a thread outside the pool, between API calls
   | exited
@@ -131,9 +146,8 @@ inductive Pc
   | sEnd                                   -- `stop()` about to return
   | wInit                                  -- `keep_execute` entered, slot of `local()` not yet known
   | wTop                                   -- loop head: `local_queue.try_pop` loads the pop index
-  | wOwn (i : Nat) (nr : Bool)             -- own try_pop: index `i` loaded, `nr` = not ready then
   | wSteal (k : Nat)                       -- scanning slot `k` of `for_each`, or going to the global pop
-  | wStealChk (k i : Nat) (nr : Bool)
+  | chk (ctx : PopCtx) (i : Nat) (nr : Bool)
   | wGWait (i : Nat)                       -- holds global pop ticket `i`; hidden: receive (Q3)
   | wPre (id : Nat)                        -- popped `Task{FUNCTION}`; next: the function starts
   | wStopping                              -- popped `Task{STOP}`: returning from `keep_execute`
@@ -146,8 +160,6 @@ inductive Pc
   | rRet (id c : Nat)                      -- inner `execute/submit` about to return
   | bTop                                   -- `keep_balance`: load `_running`
   | bSweep (k : Nat)                       -- sweeping slot `k`
-  | bChk (k i : Nat) (nr : Bool)
-  | bRel (k i : Nat)                       -- global push done; hidden: the pop callback returns
   | bStopping
   deriving DecidableEq, Repr, Inhabited
 
@@ -183,6 +195,9 @@ structure State where
   stopReturned : Bool
   exitTicket : Nat → Option Nat   -- worker ↦ global ticket of the STOP it returned on
   markers : Nat                   -- STOP markers whose push ticket was taken
+  gTicket : Nat → Option Nat      -- task ↦ its push ticket in the global queue (if it ever went there)
+  firstMarker : Option Nat        -- global push ticket of the first STOP marker
+  stopper : Option Nat            -- the thread that called `stop()`
 
 def upd {α : Type} (f : Nat → α) (i : Nat) (v : α) : Nat → α := fun j => if j = i then v else f j
 
@@ -194,7 +209,8 @@ def State.init (c : Cfg) : State :=
     rejected := fun _ => false, preStop := fun _ => false, viaLocal := fun _ => false,
     runs := fun _ => 0, done := fun _ => false, futValid := fun _ => false,
     futReady := fun _ => false, stopCalled := false, stopReturned := false,
-    exitTicket := fun _ => none, markers := 0 }
+    exitTicket := fun _ => none, markers := 0, gTicket := fun _ => none, firstMarker := none,
+    stopper := none }
 
 /-- labels: what VRT shows of one step (or which hidden step it is) -/
 inductive Lbl
@@ -216,11 +232,11 @@ inductive Lbl
   | stopBegin | stopEnd
   | wakeup | wakeupRet
   | scopeEnter | scopeLeave
-  | publish | receive | release                -- hidden
+  | publish | receive                          -- hidden
   deriving DecidableEq, Repr, Inhabited
 
 def Lbl.hidden : Lbl → Bool
-  | .publish | .receive | .release => true
+  | .publish | .receive => true
   | _ => false
 
 /-- the chain of pushes of `n` STOP markers followed by the joins (or the return when there is no worker) -/
@@ -233,36 +249,59 @@ def afterStore (c : Cfg) : Pc :=
 
 def setPc (s : State) (t : Nat) (p : Pc) : State := { s with pc := upd s.pc t p }
 
-/-- a worker (or the balancer, `stop = none`) obtained item `x` — the `switch (task.type)` -/
+/-- `stop()`: `if (!_running.load()) return;` -/
+def afterLdRunS (v : Bool) : Pc := if v then .sSt else .sEnd
+/-- `keep_balance`: `while (_running.load())` -/
+def afterLdRunB (v : Bool) : Pc := if v then .bSweep 0 else .bStopping
+/-- `stop()`: next thread of `_threads` to join -/
+def afterJoinW (c : Cfg) (n : Nat) : Pc := if n + 1 < c.workers.length then .sJoinW (n + 1) else .sEnd
+/-- `enqueue_task`: `if (is_running_in()) if (_local_capacity > 0)` -/
+def afterSubmit (c : Cfg) (inp : Bool) (id cid : Nat) : Pc :=
+  if inp = true ∧ 0 < c.L then .rSz0 id cid else .gTake (.task cid) (.rRet id cid)
+/-- `enqueue_task`: `if (local_queue.size() < _local_capacity)` with `size() = push − pop` clamped at 0 -/
+def afterSize (c : Cfg) (p a id cid : Nat) : Pc :=
+  if p - a < c.L then .rLLd id cid else .gTake (.task cid) (.rRet id cid)
+def noteMarker (fm : Option Nat) (p : Nat) : Option Nat :=
+  match fm with
+  | none => some p
+  | some j => some j
+
+/-- a worker obtained item `x` — the `switch (task.type)` of `keep_execute` -/
 def dispatch (s : State) (w : Nat) (x : Item) (ticket : Option Nat) : State :=
   match x with
   | .task id => { s with pc := upd s.pc w (.wPre id), loc := upd s.loc id (.hand w) }
   | .stop => { s with pc := upd s.pc w .wStopping, exitTicket := upd s.exitTicket w ticket }
   | .wakeup => { s with pc := upd s.pc w .wTop }
 
-/-- successful claim of ticket `i` of local queue `k` by a worker: callback (move) and release are
-instantaneous at this level -/
+/-- successful claim of ticket `i` of local queue `k` (worker, stealing worker or balance thread):
+the callback moves the task out and the slot is released at once -/
 def claimLocal (s : State) (k i : Nat) : State :=
   { s with l := upd s.l k { (s.l k).setSt i .free with popIdx := i + 1 } }
 
-/-- the shared body of `try_pop` after the index `i` has been loaded, for a thread whose "empty"
-verdict leads to `onEmpty` and whose re-check leads to `chk` -/
-def tryPopStep (s : State) (t k i : Nat) (nr : Bool) (onEmpty : Pc) (chk : Nat → Bool → Pc)
-    (onClaim : State → Item → State) : Lbl → Option State
-  | .ldPop k' v =>
-    if k' = k ∧ v = (s.l k).popIdx then
-      if v = i then (if nr then some (setPc s t onEmpty) else none)
-      else some (setPc s t (chk v (!(s.l k).ready v)))
-    else none
-  | .casPop k' e ok obs =>
-    if k' = k ∧ e = i ∧ obs = (s.l k).popIdx then
-      if ok then
-        match (s.l k).cells[i]? with
-        | some c => if obs = i ∧ c.st = .full then some (onClaim s c.item) else none
-        | none => none
-      else some (setPc s t (chk obs (!(s.l k).ready obs)))
-    else none
-  | _ => none
+/-- the balance thread forwards what it popped: `enqueue_task` on a thread that is not running in
+the pool is a push into the global queue -/
+def forward (s : State) (t k : Nat) (x : Item) : State :=
+  match x with
+  | .task id => { s with pc := upd s.pc t (.gTake x (.bSweep k)), loc := upd s.loc id (.hand t) }
+  | _ => { s with pc := upd s.pc t (.gTake x (.bSweep k)) }
+
+/-- the queue a `try_pop` context works on -/
+def PopCtx.queue (s : State) (t : Nat) : PopCtx → Option Nat
+  | .own => s.own t
+  | .steal k => some k
+  | .bal k => some k
+
+/-- where the "empty" verdict of `try_pop` leads -/
+def PopCtx.onEmpty : PopCtx → Pc
+  | .own => .wSteal 0
+  | .steal k => .wSteal (k + 1)
+  | .bal k => .bSweep (k + 1)
+
+/-- what happens with a claimed item -/
+def PopCtx.onClaim (s : State) (t : Nat) (x : Item) : PopCtx → State
+  | .own => dispatch s t x none
+  | .steal _ => dispatch s t x none
+  | .bal k => forward s t k x
 
 /-- slot `k` of the thread-local storage is not the slot of a live worker -/
 def slotAvailable (s : State) (k : Nat) : Bool :=
@@ -275,20 +314,24 @@ def acceptTask (s : State) (id : Nat) : State :=
   { s with accepted := upd s.accepted id true, futValid := upd s.futValid id true,
            preStop := upd s.preStop id (!s.stopCalled) }
 
+/-- first load of the pop index of queue `k` inside `try_pop` -/
+def loadPop (s : State) (t k v : Nat) (ctx : PopCtx) : Option State :=
+  if v = (s.l k).popIdx then some (setPc s t (.chk ctx v (!(s.l k).ready v))) else none
+
 /-- One step of thread `t` with label `l`; `none` = not enabled. -/
 def step (c : Cfg) (s : State) (t : Nat) (lb : Lbl) : Option State :=
   match s.pc t, lb with
   -- ───────── threads outside the pool
   | .idle, .submit id inp =>
-    if !inp ∧ !s.known id ∧ !s.rejected id then
+    if inp = false ∧ s.known id = false ∧ s.rejected id = false then
       some { s with pc := upd s.pc t (.gTake (.task id) (.xRet id)), known := upd s.known id true,
                     loc := upd s.loc id (.hand t) }
     else none
   | .idle, .reject id =>
-    if !s.known id ∧ !s.rejected id then some { s with rejected := upd s.rejected id true } else none
+    if s.known id = false ∧ s.rejected id = false then some { s with rejected := upd s.rejected id true } else none
   | .idle, .wakeup => some (setPc s t (.gTake .wakeup .xWkRet))
   | .idle, .stopBegin =>
-    if !s.stopCalled then some { s with pc := upd s.pc t .sLd, stopCalled := true } else none
+    if s.stopCalled = false then some { s with pc := upd s.pc t .sLd, stopCalled := true, stopper := some t } else none
   | .idle, .join u => if s.pc u = .exited then some s else none
   | .idle, .exit => some (setPc s t .exited)
   | .xRet id, .accept id' => if id' = id then some (setPc (acceptTask s id) t .idle) else none
@@ -298,23 +341,24 @@ def step (c : Cfg) (s : State) (t : Nat) (lb : Lbl) : Option State :=
     if p = s.g.cells.length then
       let s1 := { s with g := s.g.take x, pc := upd s.pc t (.gPub p k) }
       match x with
-      | .task id => some { s1 with loc := upd s1.loc id (.gq p) }
-      | .stop => some { s1 with markers := s1.markers + 1 }
+      | .task id => some { s1 with loc := upd s1.loc id (.gq p), gTicket := upd s1.gTicket id (some p) }
+      | .stop => some { s1 with markers := s1.markers + 1,
+                                firstMarker := noteMarker s1.firstMarker p }
       | .wakeup => some s1
     else none
   | .gPub p k, .publish =>
-    if s.g.slotFree c.gslots p ∧ s.g.stAt p = some .reserved then
+    if s.g.slotFree c.gslots p = true ∧ s.g.stAt p = some .reserved then
       some { s with g := s.g.setSt p .full, pc := upd s.pc t k }
     else none
   -- ───────── stop()
   | .sLd, .ldRun v =>
-    if v = s.running then some (setPc s t (if v then .sSt else .sEnd)) else none
+    if v = s.running then some (setPc s t (afterLdRunS v)) else none
   | .sSt, .stRun => some { s with running := false, pc := upd s.pc t (afterStore c) }
   | .sJoinB, .join u =>
     if c.bal = some u ∧ s.pc u = .exited then some (setPc s t (markChain c c.workers.length)) else none
   | .sJoinW n, .join u =>
     if c.workers[n]? = some u ∧ s.pc u = .exited then
-      some (setPc s t (if n + 1 < c.workers.length then .sJoinW (n + 1) else .sEnd))
+      some (setPc s t (afterJoinW c n))
     else none
   | .sEnd, .stopEnd => some { s with pc := upd s.pc t .idle, stopReturned := true }
   -- ───────── worker: keep_execute
@@ -322,41 +366,44 @@ def step (c : Cfg) (s : State) (t : Nat) (lb : Lbl) : Option State :=
     -- `local()`: the slot of this thread's id; thread ids are unique among live threads (C14) and are
     -- handed out again after a thread has exited, so a late-starting worker may inherit the slot of a
     -- worker that has already returned
-    if slotAvailable s k ∧ v = (s.l k).popIdx then
-      some { s with own := upd s.own t (some k), owner := upd s.owner k (some t),
-                    pc := upd s.pc t (.wOwn v (!(s.l k).ready v)) }
+    if slotAvailable s k = true then
+      loadPop { s with own := upd s.own t (some k), owner := upd s.owner k (some t) } t k v .own
     else none
-  | .wTop, .ldPop k v =>
-    if s.own t = some k ∧ v = (s.l k).popIdx then some (setPc s t (.wOwn v (!(s.l k).ready v))) else none
-  | .wOwn i nr, lb =>
-    match s.own t with
-    | some k => tryPopStep s t k i nr (.wSteal 0) (fun v b => .wOwn v b)
-                  (fun s x => dispatch (claimLocal s k i) t x none) lb
-    | none => none
-  | .wSteal k, .ldPop k' v =>
-    if c.steal ∧ k' = k ∧ v = (s.l k).popIdx then some (setPc s t (.wStealChk k v (!(s.l k).ready v))) else none
+  | .wTop, .ldPop k v => if s.own t = some k then loadPop s t k v .own else none
+  | .wSteal k, .ldPop k' v => if c.steal = true ∧ k' = k then loadPop s t k v (.steal k) else none
   | .wSteal _, .gPopTk i =>
     if i = s.g.popIdx then some { s with g := { s.g with popIdx := i + 1 }, pc := upd s.pc t (.wGWait i) } else none
-  | .wStealChk k i nr, lb =>
-    tryPopStep s t k i nr (.wSteal (k + 1)) (fun v b => .wStealChk k v b)
-      (fun s x => dispatch (claimLocal s k i) t x none) lb
+  -- ───────── try_pop after the index load (worker, stealing worker, balance thread)
+  | .chk ctx i nr, .ldPop k v =>
+    if ctx.queue s t = some k ∧ v = (s.l k).popIdx then
+      if v = i then (if nr = true then some (setPc s t ctx.onEmpty) else none)
+      else some (setPc s t (.chk ctx v (!(s.l k).ready v)))
+    else none
+  | .chk ctx i _, .casPop k e ok obs =>
+    if ctx.queue s t = some k ∧ e = i ∧ obs = (s.l k).popIdx then
+      if ok = true then
+        match (s.l k).cells[i]? with
+        | some cl => if obs = i ∧ cl.st = .full then some (ctx.onClaim (claimLocal s k i) t cl.item) else none
+        | none => none
+      else some (setPc s t (.chk ctx obs (!(s.l k).ready obs)))
+    else none
   | .wGWait i, .receive =>
     match s.g.cells[i]? with
     | some cl => if cl.st = .full then some (dispatch { s with g := s.g.setSt i .free } t cl.item (some i)) else none
     | none => none
   | .wPre id, .run id' inp =>
-    if id' = id ∧ inp = (s.scope t == 0) ∧ inp then
+    if id' = id ∧ inp = true ∧ s.scope t = 0 then
       some { s with pc := upd s.pc t (.wRun id), runs := upd s.runs id (s.runs id + 1) }
     else none
   | .wStopping, .exit => some (setPc s t .exited)
   -- ───────── inside a task
   | .wRun id, .submit cid inp =>
-    if inp = (s.scope t == 0) ∧ !s.known cid ∧ !s.rejected cid then
-      some { s with pc := upd s.pc t (if inp ∧ 0 < c.L then .rSz0 id cid else .gTake (.task cid) (.rRet id cid)),
+    if inp = (s.scope t == 0) ∧ s.known cid = false ∧ s.rejected cid = false then
+      some { s with pc := upd s.pc t (afterSubmit c inp id cid),
                     known := upd s.known cid true, loc := upd s.loc cid (.hand t) }
     else none
   | .wRun _, .reject cid =>
-    if !s.known cid ∧ !s.rejected cid then some { s with rejected := upd s.rejected cid true } else none
+    if s.known cid = false ∧ s.rejected cid = false then some { s with rejected := upd s.rejected cid true } else none
   | .wRun _, .scopeEnter => some { s with scope := upd s.scope t (s.scope t + 1) }
   | .wRun _, .scopeLeave => if 0 < s.scope t then some { s with scope := upd s.scope t (s.scope t - 1) } else none
   | .wRun id, .done id' =>
@@ -368,7 +415,7 @@ def step (c : Cfg) (s : State) (t : Nat) (lb : Lbl) : Option State :=
     if s.own t = some k ∧ a = (s.l k).popIdx then some (setPc s t (.rSz1 id cid a)) else none
   | .rSz1 id cid a, .ldPush k p =>
     if s.own t = some k ∧ p = (s.l k).cells.length then
-      some (setPc s t (if p - a < c.L then .rLLd id cid else .gTake (.task cid) (.rRet id cid)))
+      some (setPc s t (afterSize c p a id cid))
     else none
   | .rLLd id cid, .ldPush k p =>
     if s.own t = some k ∧ p = (s.l k).cells.length then some (setPc s t (.rLSt id cid p)) else none
@@ -380,28 +427,15 @@ def step (c : Cfg) (s : State) (t : Nat) (lb : Lbl) : Option State :=
   | .rLPub id cid p, .publish =>
     match s.own t with
     | some k =>
-      if (s.l k).slotFree c.lslots p ∧ (s.l k).stAt p = some .reserved then
+      if (s.l k).slotFree c.lslots p = true ∧ (s.l k).stAt p = some .reserved then
         some { s with l := upd s.l k ((s.l k).setSt p .full), pc := upd s.pc t (.rRet id cid) }
       else none
     | none => none
   | .rRet id cid, .accept cid' => if cid' = cid then some (setPc (acceptTask s cid) t (.wRun id)) else none
   -- ───────── keep_balance
-  | .bTop, .ldRun v => if v = s.running then some (setPc s t (if v then .bSweep 0 else .bStopping)) else none
-  | .bSweep _, .ldRun v => if v = s.running then some (setPc s t (if v then .bSweep 0 else .bStopping)) else none
-  | .bSweep k, .ldPop k' v =>
-    if k' = k ∧ v = (s.l k).popIdx then some (setPc s t (.bChk k v (!(s.l k).ready v))) else none
-  | .bChk k i nr, lb =>
-    tryPopStep s t k i nr (.bSweep (k + 1)) (fun v b => .bChk k v b)
-      (fun s x =>
-        let s1 := { s with l := upd s.l k { (s.l k).setSt i .taken with popIdx := i + 1 },
-                           pc := upd s.pc t (.gTake x (.bRel k i)) }
-        match x with
-        | .task id => { s1 with loc := upd s1.loc id (.hand t) }
-        | _ => s1) lb
-  | .bRel k i, .release =>
-    if (s.l k).stAt i = some .taken then
-      some { s with l := upd s.l k ((s.l k).setSt i .free), pc := upd s.pc t (.bSweep k) }
-    else none
+  | .bTop, .ldRun v => if v = s.running then some (setPc s t (afterLdRunB v)) else none
+  | .bSweep _, .ldRun v => if v = s.running then some (setPc s t (afterLdRunB v)) else none
+  | .bSweep k, .ldPop k' v => if k' = k then loadPop s t k v (.bal k) else none
   | .bStopping, .exit => some (setPc s t .exited)
   | _, _ => none
 
